@@ -177,6 +177,32 @@ def ob_induct(ka: int, kd: int, ta: int, c: int, n: int, t: int) -> bool:
         return H.verdict(_check_seq(triples))
 
 
+def ob_counts(k_reg: int, k_unlink: int, folder: bool) -> bool:
+    """
+    pre: 0 <= k_reg <= 6 and 0 <= k_unlink <= 8
+    post: _
+    """
+    H.enter()
+    # traced: the tracker loop runs k_reg REGISTER and k_unlink MAYBE_UNLINK requests for one resource, both
+    # counts symbolic.  Deleted exactly once: at the request that brings the count to zero, or at EOF if some
+    # user remains; never when nothing was registered.
+    ty = "folder" if folder else "file"
+    reg = ("REGISTER:/t/a:%s\n" % ty).encode("ascii")
+    unl = ("MAYBE_UNLINK:/t/a:%s\n" % ty).encode("ascii")
+    lines = []
+    i = 0
+    while i < k_reg:
+        lines.append(reg)
+        i += 1
+    i = 0
+    while i < k_unlink:
+        lines.append(unl)
+        i += 1
+    got, pipe = run_tracker(lines)
+    want = [(ty, "/t/a")] if k_reg > 0 else []
+    return H.verdict(pipe.eof_seen and got == want, "%r registrations, %r maybe_unlink: deleted %r" % (k_reg, k_unlink, got))
+
+
 def _mkname(k, m):
     return ":".join("a" if (m >> i) & 1 else "" for i in range(k))
 
@@ -257,6 +283,8 @@ def obligations(tier, seed):
                         "bounds": "3 requests (first = %s) then EOF" % CMDS[first]})
     obs.append({"name": "induct", "fn": "ob_induct", "mode": "S", "timeout": 300,
                 "bounds": "pre-state refcounts 0..3 for two names (file/folder), one arbitrary request, EOF"})
+    obs.append({"name": "counts", "fn": "ob_counts", "mode": "T", "timeout": 300,
+                "bounds": "0..6 registrations then 0..8 maybe_unlink requests of one file/folder (counts symbolic, loop traced)"})
     obs.append({"name": "names", "fn": "ob_names", "mode": "S", "timeout": 300,
                 "bounds": "two names of 1..3 segments ('a' or empty) joined by ':', file/folder types, one or two "
                           "registrations, then MAYBE_UNLINK of the second name and EOF"})
